@@ -159,7 +159,9 @@ Definition check_realpacer : rd verdict :=
       | None => VOk
       | Some (i, t) => prop_ok 406 false [F; P; i; t] end;
       prop_ok 404 (negb (0 <? d) || (Z.of_nat (length (filter (fun t => d <? t) ts)) <=? 1)) [d];
-      prop_ok 407 (ended && (n =? Z.of_nat (length ts))) [n] ]).
+      prop_ok 407 (ended && (n =? Z.of_nat (length ts))) [n];
+      (* attack_constant_total_hits *)
+      prop_ok 408 (negb (0 <? d) || ((n - 1) * P <=? F * d)) [n; F; P; d] ]).
 
 Definition getcase_with (mw : Z) : rd acase :=
   iw <- getz ;; d <- getz ;; fl <- getlist getz ;;
